@@ -109,7 +109,8 @@ Fixpoint drive (s : state) (l : list ostep) : state * bool :=
 
 (* observed events: kind 0 inv, 1 fs, 2 fe, 3 ret (v1 val, v2 err (epanic = the call panicked),
    v3 fresh: 1/0/-1 unknown/-2 not a call of the barrier), 4 blk (thread seen blocked at a quiescent
-   point, or still blocked when the run is over), 5 del (key in v1), 6 fault (cache store down: v1 = 1 / up again: 0) *)
+   point, or still blocked when the run is over), 5 del (key in v1), 6 fault (cache store down: v1 = 1 / up again: 0),
+   7 ctxdone (the call is made with a context that is already done) *)
 Record ev := mkEv { et : Z; ea : nat; ek : Z; eop : nat; ev1 : Z; ev2 : Z; ev3 : Z }.
 
 Record ccase := mkCase
@@ -246,6 +247,42 @@ Definition cache_hit (c : ccase) (e x : ev) : bool :=
   | _, _, _ => false
   end.
 
+(* ... and a flight that was answered from the cache (no loader ran) is shared like any other: the
+   caller may have the cached outcome that an OVERLAPPING call on the same key legitimately got
+   (itself included).  Only free-running histories can hold such a flight open long enough. *)
+Definition calls_overlap (c : ccase) (e e' : ev) : bool :=
+  match find_ev (clog c) 0 (ea e) (eop e), find_ev (clog c) 0 (ea e') (eop e') with
+  | Some i, Some i' => (et i' <? et e)%Z && (et i <? et e')%Z
+  | _, _ => false
+  end.
+
+Definition cache_hit_shared (c : ccase) (e x : ev) : bool :=
+  existsb (fun e' => (ek e' =? 3)%Z && (ev1 e' =? ev1 e)%Z && (ev2 e' =? ev2 e)%Z &&
+                     match op_at c (ea e) (eop e), op_at c (ea e') (eop e') with
+                     | Some o, Some o' => same_key o o'
+                     | _, _ => false
+                     end && calls_overlap c e e' && cache_hit c e' x) (clog c).
+
+(* the caller's context (cache node TakeCtx): event kind 7 marks a call made with a context that
+   is already done; such a call fails with the context's error (30 canceled / 31 deadline) before
+   any loader runs, and callers that share its flight get that error too *)
+Definition ectx_canceled : Z := 30%Z.
+Definition ectx_deadline : Z := 31%Z.
+Definition ctx_done_shared (c : ccase) (e : ev) (o : op) : bool :=
+  ((ev2 e =? ectx_canceled) || (ev2 e =? ectx_deadline))%Z &&
+  existsb (fun f => (ek f =? 7)%Z &&
+                    match op_at c (ea f) (eop f) with
+                    | Some o' => same_key o o' &&
+                                 (pair_nat_eqb (ea f, eop f) (ea e, eop e) ||
+                                  ((et f <? et e)%Z &&
+                                   match find_ev (clog c) 0 (ea e) (eop e), find_ev (clog c) 3 (ea f) (eop f) with
+                                   | Some inv, Some fret => (et inv <? et fret)%Z
+                                   | Some _, None => true
+                                   | None, _ => false
+                                   end))
+                    | None => false
+                    end) (clog c).
+
 (* A user function that panics assigns nothing: SingleFlight waiters of that execution return
    (nil, nil).  The property text does not quantify over panicking functions; this clause states
    what the code does and is the only place where a result that no execution produced is accepted
@@ -267,14 +304,15 @@ Definition ret_ok (c : ccase) (e : ev) : bool :=
            call fails fast with the store's error *)
         existsb (fun x => match op_at c (ea x) (eop x) with
                           | Some o' => same_key o o' && (snd (fn_ret o') =? ev2 e)%Z &&
-                                       (may_share c e x || ((ev2 e =? enotfound)%Z && cache_hit c e x))
+                                       (may_share c e x || ((ev2 e =? enotfound)%Z && cache_hit_shared c e x))
                           | None => false end) (execs c)
         || ((ev2 e =? -1)%Z && fault_before c e)
+        || ctx_done_shared c e o
       else if ccache c then
         existsb (fun x => match op_at c (ea x) (eop x) with
                           | Some o' => same_key o o' &&
                                        (((oval o' =? ev1 e)%Z && (oerr o' =? 0)%Z &&
-                                         (may_share c e x || cache_hit c e x))
+                                         (may_share c e x || cache_hit_shared c e x))
                                         || panic_share c e x o')
                           | None => false end) (execs c)
       else
